@@ -67,7 +67,7 @@ def main(chk: core.Check) -> int:
     chk.assumptions += ["pybind11 stand-in (native/standin): array_t owns an exact-size heap copy of the buffer, so ASan sees every access outside it",
                         "the installed extension binary cannot be rebuilt in this sandbox (no pybind11) and is NOT the subject: the check compiles the working-tree sources",
                         "memory safety of pybind11/numpy glue and of std::vector/std::map themselves is outside the model"]
-    ok_gen = rc.regen(chk)
+    ok_gen = rc.regen(chk, python_side=False)
     if ok_gen:
         chk.prove(modules=["C15", "RawTie"])
     n_streams, per_stream, n_random = (1500, 120, 20000) if thorough else (60, 50, 800)
